@@ -27,6 +27,9 @@ pub struct Ctx {
     pub tiny: bool,
     /// (index, count): run only the cases whose index is congruent to `index` modulo `count`
     pub shard: Option<(u64, u64)>,
+    /// thorough tier: upper bound in seconds for one lane (the property's time budget divided by its
+    /// number of lanes; VERIF_THOROUGH_SECS, default 900 s per property)
+    pub lane_cap_s: Option<u64>,
 }
 
 impl Ctx {
@@ -44,7 +47,12 @@ impl Ctx {
         }
     }
     pub fn secs(&self, quick: u64, thorough: u64) -> Duration {
-        let base = if self.quick() { quick } else { thorough };
+        let mut base = if self.quick() { quick } else { thorough };
+        if !self.quick() {
+            if let Some(cap) = self.lane_cap_s {
+                base = base.min(cap.max(quick));
+            }
+        }
         Duration::from_millis((base as f64 * 1000.0 * self.scale) as u64)
     }
 }
